@@ -124,6 +124,7 @@ def run_tlc(ctx, d, module="MC", cfg=None, workers=None, timeout=600, simulate=N
     tm = threading.Timer(timeout, killer)
     tm.start()
     viol = False
+    violated = []
     err = False
     try:
         for line in p.stdout:
@@ -135,6 +136,9 @@ def run_tlc(ctx, d, module="MC", cfg=None, workers=None, timeout=600, simulate=N
                 gen, distinct = int(m.group(1)), int(m.group(2))
             if "is violated" in line or "Error: Action property" in line or "Temporal properties were violated" in line:
                 viol = True
+                mv = re.search(r"Invariant (\w+) is violated", line)
+                if mv:
+                    violated.append(mv.group(1))
             if line.startswith("Error:") or "Exception" in line:
                 err = True
             tail.append(line)
@@ -158,7 +162,7 @@ def run_tlc(ctx, d, module="MC", cfg=None, workers=None, timeout=600, simulate=N
     ok = (p.returncode == 0) and not viol
     if not ok and not viol and not allow_fail:
         raise Inconclusive("TLC failed (rc=%s) in %s:\n%s" % (p.returncode, d, "\n".join(tail[-40:])))
-    return dict(ok=ok, viol=viol, tail=tail, gen=gen, distinct=distinct, rc=p.returncode)
+    return dict(ok=ok, viol=viol, violated=violated, tail=tail, gen=gen, distinct=distinct, rc=p.returncode)
 
 
 def sany(path):
